@@ -45,7 +45,7 @@ pub fn src_name(s: &Src) -> &'static str {
   match s {
     Src::Hot(_) => "subject",
     Src::Raw(_) => "create(hot)",
-    Src::Iter(_) => "from_iter",
+    Src::Iter(_) | Src::IntoIter(_) => "from_iter",
     Src::Create(_) => "create",
     Src::Of(_) => "of",
     Src::OfFn(_) => "of_fn",
@@ -62,6 +62,7 @@ pub fn src_name(s: &Src) -> &'static str {
     Src::Timer(..) => "timer",
     Src::TimerAt(..) => "timer_at",
     Src::StreamCount(_) => "from_stream",
+    Src::StreamResultCount(_) => "from_stream_result",
     Src::IterCount(_) => "from_iter",
     Src::FromFuture(_) => "from_future",
     Src::FromFutureResult(_) => "from_future_result",
